@@ -52,6 +52,7 @@ func isBuiltinCall(v ssa.Value, name string) (*ssa.Call, bool) {
 }
 
 func c07(r *core.Run) {
+	c07CountOnlyOnSuccess(r)
 	w := r.W
 
 	// L1: every reader method in pkg/file/...
